@@ -33,7 +33,8 @@ def floors(tier):
     return {"compared_bounds": 100000, "compared_multiple_exact": 20000, "multiple_exact_true": 2000,
             "multiple_exact_false": 2000, "big_int_pairs": 1000, "path_float_quotient": 1000,
             "path_overflow_fallback": 1000, "path_int_mod": 1000, "region_multipleOf_except_hit": 1,
-            "bound_true": 10000, "bound_false": 10000}
+            "bound_true": 10000, "bound_false": 10000, "compared_bound_pairs": 5000, "bound_pair_true": 500,
+            "bound_pair_false": 500}
 
 
 def pool():
@@ -102,6 +103,36 @@ def schemas_for(draft, b):
     if b > 0:
         out.append(({"divisibleBy" if draft == 3 else "multipleOf": b}, "multiple", None))
     return out
+
+
+def pair_schemas(draft, a, b):
+    """Schemas with two numeric keywords in ONE object (each constraint stays independent)."""
+    out = []
+    if draft >= 6:
+        out.append(({"minimum": a, "exclusiveMinimum": b}, [("ge", False, a), ("ge", True, b)]))
+        out.append(({"maximum": a, "exclusiveMaximum": b}, [("le", False, a), ("le", True, b)]))
+        out.append(({"exclusiveMinimum": a, "maximum": b}, [("ge", True, a), ("le", False, b)]))
+    else:
+        for flag in (True, False):
+            out.append(({"minimum": a, "exclusiveMinimum": flag, "maximum": b}, [("ge", flag, a), ("le", False, b)]))
+            out.append(({"maximum": a, "exclusiveMaximum": flag, "minimum": b}, [("le", flag, a), ("ge", False, b)]))
+    return out
+
+
+def check_triple(ctx, draft, i, a, b, validators):
+    for schema, constraints in pair_schemas(draft, a, b):
+        case = {"draft": draft, "schema": schema, "instance": i}
+        ctx.case([draft, schema, i])
+        try:
+            got = impl.CLS[draft](schema).is_valid(i)
+        except Exception as e:
+            ctx.violation("raised", case, "%s: %s" % (type(e).__name__, str(e)[:120]))
+            continue
+        want = all(expected_bound(i, bound, op, strict) for op, strict, bound in constraints)
+        ctx.count("compared_bound_pairs")
+        ctx.count("bound_pair_true" if want else "bound_pair_false")
+        if got != want:
+            ctx.violation("bound-pair", case, "implementation %s, exact arithmetic %s" % (got, want))
 
 
 def expected_bound(i, b, op, strict):
@@ -182,6 +213,19 @@ def run(ctx):
                 continue
             for d in impl.DRAFTS:
                 check_pair(ctx, d, i, b, validators)
+        # two numeric keywords in one schema object: instance at / next to each bound
+        small = [0, 1, 5, 10, 20, 2.5, -1, 2 ** 53, float(2 ** 53), 10 ** 400, 1e308, 5e-324, 0.5, 3]
+        for a in small:
+            for b in small:
+                idx += 1
+                if not ctx.mine(idx):
+                    continue
+                for d in impl.DRAFTS:
+                    for i in {a, b}:
+                        check_triple(ctx, d, i, a, b, validators)
+                        if isinstance(i, int) and abs(i) < 2 ** 60:
+                            check_triple(ctx, d, i + 1, a, b, validators)
+                            check_triple(ctx, d, i - 1, a, b, validators)
         # seeded random pairs
         rng = ctx.rng
         for _ in range(ctx.scale(3000, 60000)):
